@@ -222,6 +222,18 @@ func (s *secretInternal) close() (err error) {
 	return nil
 }
 
+// abandon marks a secret whose pages were released by a failed creation as closed, so that neither its
+// finalizer nor a stray Close tears those pages down a second time (they may belong to another secret by
+// then) or adjusts the in-use accounting for a secret that was never handed out.
+func (s *secretInternal) abandon() {
+	s.rw.Lock()
+	defer s.rw.Unlock()
+
+	s.bytes = nil
+	s.closing = true
+	s.closed = true
+}
+
 // SecretFactory is used to create protected memory based Secret implementations.
 type SecretFactory struct {
 	mc memcall.Interface
@@ -260,6 +272,8 @@ func (f *SecretFactory) New(b []byte) (securememory.Secret, error) {
 			err = errors.Wrap(err, err2.Error())
 		}
 
+		secret.abandon()
+
 		return nil, err
 	}
 
@@ -290,6 +304,8 @@ func (f *SecretFactory) createRandom(size int, readFunc func(b []byte) (n int, e
 			err = errors.Wrap(err, err2.Error())
 		}
 
+		s.abandon()
+
 		return nil, err
 	}
 
@@ -304,6 +320,8 @@ func (f *SecretFactory) createRandom(size int, readFunc func(b []byte) (n int, e
 		if err2 := f.memcall().Free(s.bytes); err2 != nil {
 			err = errors.Wrap(err, err2.Error())
 		}
+
+		s.abandon()
 
 		return nil, err
 	}
